@@ -408,6 +408,8 @@ def replay(chk, h, c):
             worst = max(worst, np.abs(native_matrix(h, d, o['o']) - R.conj().T @ A @ R).max())
         elif kind == 'basis':
             th, de = rng.uniform(-3, 3, n), rng.uniform(-3, 3, n)
+            if trial % 2 == 1:
+                th = th * 1e8          # angles far outside (-pi,pi): an argument reduction done by hand is visible only here
             U = np_U(d, th, de)
             ret, o1 = h.native('h_rotate_basis', [I(0), I(d), Buf('a', av), Buf('th', th), Buf('del', de), Buf('o', n=n)])
             ret, o0 = h.native('h_rotate_basis', [I(1), I(d), Buf('a', av), Buf('th', th), Buf('del', de), Buf('o', n=n)])
@@ -491,7 +493,7 @@ def main(tier):
     worst_sm = (0.0, None)
     for d in (2, 3, 4, 6):
         n = d * d
-        for mag in (3e-9, 1e-8, 7e-10, math.pi / 2 - 1e-9):
+        for mag in (3e-9, 1e-8, 7e-10, math.pi / 2 - 1e-9, 3.1e7, 8.7e8):
             th = [mag * (1 + 0.37 * ((k * 7) % 5)) if (k // d) < (k % d) else 0.0 for k in range(n)]
             de = [0.3 + 0.11 * k if (k // d) < (k % d) else 0.0 for k in range(n)]
             av = [0.4 + 0.05 * k for k in range(n)]
